@@ -480,6 +480,10 @@ func writeComputedFieldExpression(w *formatting.IndentedWriter, expression dsl.E
 					(l.Operator.Precedence() == t.Operator.Precedence() && t.Operator == dsl.BinaryOpPow)) {
 					requiresParentheses = true
 				}
+				if t.Operator == dsl.BinaryOpPow && isNegation(t.Left) {
+					// the power operator binds tighter than a sign in the target language: (-3) ** 2
+					requiresParentheses = true
+				}
 
 				if requiresParentheses {
 					w.WriteString("(")
@@ -1058,4 +1062,17 @@ func typeDefinitionDefault(t dsl.TypeDefinition, contextNamespace string, st dsl
 	}
 
 	return "", defaultValueKindNone
+}
+
+// Reports whether the expression is written with a leading minus sign.
+func isNegation(e dsl.Expression) bool {
+	switch e := e.(type) {
+	case *dsl.UnaryExpression:
+		return true
+	case *dsl.IntegerLiteralExpression:
+		return e.Value.Sign() < 0
+	case *dsl.FloatingPointLiteralExpression:
+		return strings.HasPrefix(e.Value, "-")
+	}
+	return false
 }
